@@ -38,7 +38,10 @@ EXTENDS Naturals, Sequences, FiniteSets, TLC
 
 CONSTANTS NPlugins, MaxCalls,
           UnconditionalRestore, AbortOnFailure, KeepsActing, SaveOnce, AcceptsDuringDrain, RestoreNeedsOwnThread,
-          ClobbersCallerHook, LeaksHooksOnFailedStart
+          ClobbersCallerHook, LeaksHooksOnFailedStart,
+          SavesOwnHook      \* deviation (the code before the fix): a start() that finds the agent's OWN trace function on
+                            \*   the starting thread (left there by a shutdown from another thread, which cannot take it
+                            \*   away) remembers it as "what was there before" - and the next shutdown puts it back
 
 Hooks == {"None", "Other1", "Other2", "Agent"}
 
@@ -78,18 +81,23 @@ Init ==
     /\ sdpc = 0 /\ failing = {} /\ sdDone = {} /\ drained = FALSE /\ pluginDown = {}
     /\ ncalls = 0 /\ actedAfter = FALSE /\ everStarted = FALSE /\ latePoll = FALSE /\ otherThread = FALSE /\ otherHook = preThr
 
+(* A life can follow a shutdown that was called from another thread: the starting thread still runs the agent's trace   *)
+(* function then (nobody else could take it away). That is the agent's own leftover, not "what was there before": the   *)
+(* hooks remembered from the life before stay remembered, and the shutdown of THIS life - if called on the starting     *)
+(* thread - puts them back.                                                                                             *)
 Start ==
-    /\ sdpc = 0 /\ ncalls < MaxCalls /\ ~otherThread
+    /\ sdpc = 0 /\ ncalls < MaxCalls
     /\ ncalls' = ncalls + 1
     /\ IF started
-         THEN UNCHANGED <<sysTrace, thrTrace, started, pollAlive, everStarted, preSys, preThr>>   \* repeat starts do nothing
-         ELSE /\ started' = TRUE /\ pollAlive' = TRUE /\ everStarted' = TRUE
+         THEN UNCHANGED <<sysTrace, thrTrace, started, pollAlive, everStarted, preSys, preThr, otherThread>>   \* repeat starts do nothing
+         ELSE /\ started' = TRUE /\ pollAlive' = TRUE /\ everStarted' = TRUE /\ otherThread' = FALSE
               /\ IF noTrace THEN UNCHANGED <<sysTrace, thrTrace, preSys, preThr>>
                             ELSE /\ sysTrace' = "Agent" /\ thrTrace' = "Agent"
                                  /\ IF SaveOnce /\ everStarted
                                       THEN UNCHANGED <<preSys, preThr>>
-                                      ELSE preSys' = sysTrace /\ preThr' = thrTrace      \* what is there NOW
-    /\ UNCHANGED <<noTrace, appSys, appThr, sdpc, failing, sdDone, drained, pluginDown, actedAfter, latePoll, otherThread, otherHook>>
+                                      ELSE /\ preSys' = IF sysTrace = "Agent" /\ ~SavesOwnHook THEN preSys ELSE sysTrace
+                                           /\ preThr' = IF thrTrace = "Agent" /\ ~SavesOwnHook THEN preThr ELSE thrTrace
+    /\ UNCHANGED <<noTrace, appSys, appThr, sdpc, failing, sdDone, drained, pluginDown, actedAfter, latePoll, otherHook>>
 
 (* start() fails (a setting it needs last is unusable): the caller gets the error, the process is as it was before *)
 StartFails ==
